@@ -279,6 +279,18 @@ def replay_text(ctx, prelude, case):
             "how": f"save as /tmp/p.py; PYTHONPATH=/verif/tools:{ctx.repo}/guppylang/src:{ctx.repo}/guppylang-internals/src /venv/bin/python /tmp/p.py"}
 
 
+class Capped:
+    """at most `cap` reports per kind reach ctx.report (all are counted)"""
+
+    def __init__(self, ctx, cap=4):
+        self.ctx, self.cap, self.n = ctx, cap, {}
+
+    def report(self, key, kind, name, detail, found_input=True):
+        self.n[kind] = self.n.get(kind, 0) + 1
+        if self.n[kind] <= self.cap or self.ctx.is_known(key):
+            self.ctx.report(key, kind, name, detail, found_input=found_input)
+
+
 def run(ctx):
     gen_error = None
     try:
@@ -288,6 +300,7 @@ def run(ctx):
     info = ctx.coq_props() if gen_error is None else \
         {"ok": False, "obligations": 0, "discharged": 0, "axioms": [], "log": gen_error, "failed": "translator: " + gen_error, "theorems": []}
     r = vlib.rng(ctx.seed, "C16")
+    real_ctx, ctx_r = ctx, Capped(ctx)
     prelude, cases = programs()
     impl = json.loads(ctx.impl("impl_coerce.py", {"prelude": prelude, "cases": [{"id": c["id"], "src": c["src"], "fn": c["fn"]} for c in cases]}))
     ws = words(ctx, r)
